@@ -2,11 +2,27 @@
 
 package fuse
 
-import "bazil.org/fuse/fs"
+import (
+	"sync/atomic"
+
+	"bazil.org/fuse/fs"
+)
 
 // VerifAttachNullServer attaches a connection-less fs.Server so that handlers
 // which notify the kernel (e.g. RootNode.Remove) can be driven in-process
 // without a mount. Only compiled in with the "verif" build tag.
 func (fsys *FileSystem) VerifAttachNullServer() {
 	fsys.server = fs.New(nil, nil)
+}
+
+// VerifBeforeNotifyDelete, if set, is called by the goroutine that tells the
+// kernel about the files removed with a dropped database, before it sends the
+// notifications. A harness can hold them back to widen the window in which
+// the kernel still caches the old entries.
+var VerifBeforeNotifyDelete atomic.Pointer[func(dbName string)]
+
+func verifBeforeNotifyDelete(dbName string) {
+	if f := VerifBeforeNotifyDelete.Load(); f != nil {
+		(*f)(dbName)
+	}
 }
